@@ -79,6 +79,7 @@ fn check(c: &Case, obs: &mut Obs) -> Result<(), Fail> {
             certs: t.certs.clone(),
             aux_form: 0,
             early_multiasset: false,
+            ref_inputs: 0,
         };
         let tw = Tweaks { change_delta: if t.unbalanced { 1 } else { 0 }, ..Default::default() };
         match forge::forge_with(&spec, &tw) {
